@@ -16,6 +16,7 @@ ID = "C17"
 TITLE = "Saving with the EMS fixes preserves data, geometry and time instants"
 MC = {"quick": [("MC_C17", "MC_C17.cfg", 8)], "thorough": [("MC_C17", "MC_C17.cfg", 16)]}
 TRACE = ("Trace_C17", "Trace_C17.cfg")
+THOROUGH_EXTRA_SEEDS = 2
 # the repository\'s own tests, recorded by harness/harvest_plugin.py, judged by the same trace specification
 ALSO = {"quick": [], "thorough": ["harness.props.hv17"]}
 REQUIRED = ["Format", "SaveOpen", "scalar-time", "coarse-integer-axis", "period-seconds", "period-minutes", "period-hours", "period-days", "negative-offset",
